@@ -276,7 +276,17 @@ class Mon:
         if raised:
             self.ns_raised += 1
             if L is not None and sz <= L and self.ns_early is None:
-                self.ns_early = {"size": sz, "limit": L}
+                why = ""
+                c, hops = ctx, 0
+                while c.parent is not None and hops < 10_000:
+                    snap = self.copy_snap.get(id(c))
+                    if snap is not None and own_size(c.parent) < snap[1]:
+                        # an ancestor's namespace shrank after this copy was made: the
+                        # carried size is stale (too high)
+                        why = "parent-shrank-after-copy"
+                        break
+                    c, hops = c.parent, hops + 1
+                self.ns_early = {"size": sz, "limit": L, "why": why}
             return
         if sz > self.ns_peak:
             self.ns_peak = sz
